@@ -128,6 +128,7 @@ theorem Py_eval_congr (s s' : Store) (e : Expr) (h : ∀ x ∈ e.vars, s.get x =
   | mm k a b iha ihb =>
     simp only [Expr.vars, List.mem_append] at h
     simp only [Py.eval, iha (fun x hx => h x (.inl hx)), ihb (fun x hx => h x (.inr hx))]
+  | toStr a iha => simp only [Expr.vars] at h; simp only [Py.eval, iha h]
 
 theorem C_eval_congr (te : C.TyEnv) (s s' : Store) (e : Expr) (h : ∀ x ∈ e.vars, s.get x = s'.get x) :
     C.eval te s e = C.eval te s' e := by
@@ -158,6 +159,7 @@ theorem C_eval_congr (te : C.TyEnv) (s s' : Store) (e : Expr) (h : ∀ x ∈ e.v
   | mm k a b iha ihb =>
     simp only [Expr.vars, List.mem_append] at h
     simp only [C.eval, iha (fun x hx => h x (.inl hx)), ihb (fun x hx => h x (.inr hx))]
+  | toStr a iha => simp only [Expr.vars] at h; simp only [C.eval, iha h]
 
 theorem nameFree_vars (e : Expr) (h : e.nameFree = true) : e.vars = [] := by
   induction e with
@@ -175,6 +177,7 @@ theorem nameFree_vars (e : Expr) (h : e.nameFree = true) : e.vars = [] := by
     simp only [Expr.nameFree, Bool.and_eq_true] at h; simp [Expr.vars, ihc h.1.1, iha h.1.2, ihb h.2]
   | abs a iha => simp only [Expr.nameFree] at h; simp [Expr.vars, iha h]
   | mm k a b iha ihb => simp only [Expr.nameFree, Bool.and_eq_true] at h; simp [Expr.vars, iha h.1, ihb h.2]
+  | toStr a iha => simp only [Expr.nameFree] at h; simp [Expr.vars, iha h]
 
 theorem wt_vars (te : C.TyEnv) (e : Expr) (h : e.wt te = true) : ∀ x ∈ e.vars, (te.lookup x).isSome = true := by
   induction e with
@@ -186,8 +189,8 @@ theorem wt_vars (te : C.TyEnv) (e : Expr) (h : e.wt te = true) : ∀ x ∈ e.var
     simp only [Expr.wt, Bool.and_eq_true] at h
     intro y hy; simp only [Expr.vars, List.mem_append] at hy
     rcases hy with hy | hy
-    · exact iha h.1.1.1 y hy
-    · exact ihb h.1.1.2 y hy
+    · exact iha h.1.1 y hy
+    · exact ihb h.1.2 y hy
   | cmp op a b iha ihb =>
     simp only [Expr.wt, Bool.and_eq_true] at h
     intro y hy; simp only [Expr.vars, List.mem_append] at hy
@@ -222,6 +225,7 @@ theorem wt_vars (te : C.TyEnv) (e : Expr) (h : e.wt te = true) : ∀ x ∈ e.var
     rcases hy with hy | hy
     · exact iha h.1.1.1 y hy
     · exact ihb h.1.1.2 y hy
+  | toStr a iha => simp only [Expr.wt, Bool.and_eq_true] at h; exact iha h.1
 
 /-! ### weakening of the type environment -/
 
@@ -239,7 +243,9 @@ theorem wt_sub {te te' : C.TyEnv} (hs : Sub te te') (e : Expr) (h : e.wt te = tr
     simp only [Expr.wt, inferTy, hs x t ht, ht, Option.isSome_some, Option.getD_some, and_self]
   | bin op a b iha ihb =>
     simp only [Expr.wt, Bool.and_eq_true] at h
-    simp only [Expr.wt, inferTy, (iha h.1.1.1).1, (ihb h.1.1.2).1, (iha h.1.1.1).2, (ihb h.1.1.2).2, h.1.2, h.2, Bool.and_self, and_self]
+    have hb : Expr.binTyOk te' op a b = true := by
+      have := h.2; simp only [Expr.binTyOk] at this ⊢; rw [(iha h.1.1).2, (ihb h.1.2).2]; exact this
+    simp only [Expr.wt, inferTy, (iha h.1.1).1, (ihb h.1.2).1, (iha h.1.1).2, (ihb h.1.2).2, hb, Bool.and_self, and_self]
   | cmp op a b iha ihb =>
     simp only [Expr.wt, Bool.and_eq_true] at h
     simp only [Expr.wt, inferTy, (iha h.1.1.1).1, (ihb h.1.1.2).1, (iha h.1.1.1).2, (ihb h.1.1.2).2, h.1.2, h.2, Bool.and_self, and_self]
@@ -268,6 +274,9 @@ theorem wt_sub {te te' : C.TyEnv} (hs : Sub te te') (e : Expr) (h : e.wt te = tr
     simp only [Expr.wt, Bool.and_eq_true, beq_iff_eq] at h
     simp only [Expr.wt, inferTy, (iha h.1.1.1).1, (ihb h.1.1.2).1, (iha h.1.1.1).2, (ihb h.1.1.2).2, h.1.2, h.2,
       beq_self_eq_true, Bool.and_self, and_self]
+  | toStr a iha =>
+    simp only [Expr.wt, Bool.and_eq_true] at h
+    simp only [Expr.wt, inferTy, (iha h.1).1, (iha h.1).2, h.2, Bool.and_self, and_self]
 
 /-- a name-free expression is typed independently of the declarations -/
 theorem wt_nameFree (te te' : C.TyEnv) (e : Expr) (hnf : e.nameFree = true) (h : e.wt te = true) :
@@ -280,7 +289,9 @@ theorem wt_nameFree (te te' : C.TyEnv) (e : Expr) (hnf : e.nameFree = true) (h :
   | bin op a b iha ihb =>
     simp only [Expr.nameFree, Bool.and_eq_true] at hnf
     simp only [Expr.wt, Bool.and_eq_true] at h
-    simp only [Expr.wt, inferTy, (iha hnf.1 h.1.1.1).1, (ihb hnf.2 h.1.1.2).1, (iha hnf.1 h.1.1.1).2, (ihb hnf.2 h.1.1.2).2, h.1.2, h.2,
+    have hb : Expr.binTyOk te' op a b = true := by
+      have := h.2; simp only [Expr.binTyOk] at this ⊢; rw [(iha hnf.1 h.1.1).2, (ihb hnf.2 h.1.2).2]; exact this
+    simp only [Expr.wt, inferTy, (iha hnf.1 h.1.1).1, (ihb hnf.2 h.1.2).1, (iha hnf.1 h.1.1).2, (ihb hnf.2 h.1.2).2, hb,
       Bool.and_self, and_self]
   | cmp op a b iha ihb =>
     simp only [Expr.nameFree, Bool.and_eq_true] at hnf
@@ -319,6 +330,10 @@ theorem wt_nameFree (te te' : C.TyEnv) (e : Expr) (hnf : e.nameFree = true) (h :
     simp only [Expr.wt, Bool.and_eq_true, beq_iff_eq] at h
     simp only [Expr.wt, inferTy, (iha hnf.1 h.1.1.1).1, (ihb hnf.2 h.1.1.2).1, (iha hnf.1 h.1.1.1).2, (ihb hnf.2 h.1.1.2).2,
       h.1.2, h.2, beq_self_eq_true, Bool.and_self, and_self]
+  | toStr a iha =>
+    simp only [Expr.nameFree] at hnf
+    simp only [Expr.wt, Bool.and_eq_true] at h
+    simp only [Expr.wt, inferTy, (iha hnf h.1).1, (iha hnf h.1).2, h.2, Bool.and_self, and_self]
 
 theorem okCond_wt {te : C.TyEnv} {c : Expr} (h : c.okCond te = true) : c.wt te = true := by
   simp only [Expr.okCond, Bool.and_eq_true] at h; exact h.1
